@@ -265,6 +265,35 @@ func GenFold(prop string, seed uint64, variant int, pool *Pool) *Plan {
 	return p
 }
 
+// GenResolve generates C18 plans: histories of mostly valid operations with resolution requests at arbitrary points.
+func GenResolve(seed uint64, pool *Pool) *Plan {
+	p := GenFold("C18", seed, 0, pool)
+	p.Profile = "resolve"
+	r := core.NewRNG(seed).Stream("gen/C18/resolve")
+	p.Swarm.ChainMode = false
+	var steps []Step
+	for _, st := range p.Steps {
+		if st.Op == SSubmit && st.Fault != ref.FNone && r.Chance(2, 3) {
+			st.Fault, st.AnchoredKind = ref.FNone, ""
+		}
+		steps = append(steps, st)
+		if st.Op == SSubmit {
+			if r.Chance(1, 2) {
+				steps = append(steps, Step{Op: STick, Secs: p.Swarm.BlockInterval + 1})
+			}
+			for n := r.Intn(3); n > 0; n-- {
+				steps = append(steps, Step{Op: SResolve, Node: r.Intn(3), DID: r.Intn(4), Opts: r.Intn(64)})
+			}
+		}
+	}
+	steps = append(steps, Step{Op: STick, Secs: p.Swarm.BlockInterval * 3})
+	for n := 0; n < 4; n++ {
+		steps = append(steps, Step{Op: SResolve, Node: r.Intn(3), DID: n, Opts: r.Intn(64)})
+	}
+	p.Steps = steps
+	return p
+}
+
 // FoldSweepVariants is an upper bound on the number of (position, class) variants of a base lifecycle.
 const FoldSweepVariants = 8 * 14
 
